@@ -147,11 +147,16 @@ def cached_suite(name, tier, seed, compute):
     return r
 
 
-def run_cfg_script(d, cfg, script, tag, batch=200):
+def run_cfg_script(d, cfg, script, tag, batch=200, sanitize=False):
     """record script on cfg's harness and validate; returns result dict"""
-    binary = vecpipe.build_harness(d, cfg)
+    binary = vecpipe.build_harness(d, cfg, sanitize=sanitize)
     trace = os.path.join(workdir(d, 'traces'), '%s_%s.ndjson' % (cfg.name, tag))
-    dt_run, out = vecpipe.record(binary, script, trace, batch=batch)
+    env = None
+    if sanitize:
+        # a sanitizer report aborts the child: its SIGABRT handler records a crash event for the call in flight
+        env = dict(os.environ, ASAN_OPTIONS='abort_on_error=1:handle_abort=0:detect_leaks=0:allocator_may_return_null=1',
+                   UBSAN_OPTIONS='halt_on_error=1:abort_on_error=1:print_stacktrace=0')
+    dt_run, out = vecpipe.record(binary, script, trace, batch=batch, env=env)
     v = vecpipe.validate_vec(d, trace, '%s_%s' % (cfg.name, tag))
     v.update(config=cfg.name, tag=tag, trace=trace, run_wall=dt_run, script=script, is_ref=cfg.is_ref())
     return v
@@ -190,6 +195,19 @@ def suite_vec(tier, seed):
             uniq.setdefault(k, (cfg, params))
         vlib.pmap_proc(vecpipe.mc_export_job, [(d, cp[0].model(), cp[1], cp[0].name) for cp in uniq.values()], workers=4)
         results = pmap(one, jobs, workers=8)
+        if tier == 'thorough':
+            # the same walks on AddressSanitizer + UndefinedBehaviorSanitizer builds (clang): an out-of-bounds or
+            # use-after-free access that changes no observed value still ends the call with a crash event
+            def one_asan(job):
+                kind, cfg, params = job
+                md, info = vecpipe.mc_export(d, cfg.model(), params, cfg.name)
+                r = run_cfg_script(d, cfg, os.path.join(md, 'walks.script'), 'walks_asan', sanitize=True)
+                r['mc'] = info
+                r['kind'] = kind
+                r['config'] = cfg.name + '_asan'
+                return r
+            asan_names = ('v_NTR_stdlike', 's3_NTR_withrealloc', 'f3_NTR', 's2_TR_amcled', 'p_s2_NTR_amcled')
+            results += pmap(one_asan, [j for j in jobs if j[1].name in asan_names], workers=4)
         # simulation behaviours of a larger model (beyond the exhaustive scope)
         simjobs = []
         nsim = 300 if tier == 'quick' else 1500
@@ -233,7 +251,18 @@ def fault_configs(tier):
         ('ft_p_s2_NTR_amcled', 'NTR', 'amcled', [('small', 2, 'u32')] * 2),
     ]
     lst = q + (t if tier == 'thorough' else [])
-    return [ImplCfg(n, e, a, s) for n, e, a, s in lst]
+    out = [ImplCfg(n, e, a, s) for n, e, a, s in lst]
+    # heterogeneous pairs (swap2, SmallVector(vector&&), buffer hand-over) under faults
+    S = lambda *a: a
+    x = [('ft_x_s2_v_NTRM', 'NTRM', 'stdlike', [S('small', 2, 'u32'), S('vector', 0, 'u32')])]
+    if tier == 'thorough':
+        x += [('ft_x_s2_s3_NTR', 'NTR', 'amcled', [S('small', 2, 'u32'), S('small', 3, 'u32')]),
+              ('ft_x_f3_s2_NTRM', 'NTRM', 'stdlike', [S('fixed', 3), S('small', 2, 'u32')])]
+    for n, e, a, s in x:
+        c = ImplCfg(n, e, a, s)
+        c.swap2 = True
+        out.append(c)
+    return out
 
 
 SWAP2_OPS = ('{"swap2", "ctorDefault", "ctorCountVal", "ctorFromVector", "pushBack", "popBack", "clear", "reserve", "reserveBig", '
@@ -410,7 +439,9 @@ def suite_fault(tier, seed):
         cfgs = fault_configs(tier)
         jobs = []
         for cfg in cfgs:
-            if len(cfg.slots) == 1:
+            if getattr(cfg, 'swap2', False):
+                params = dict(Vals=[1, 2], MaxLen=3, MaxCnt=2, Its=['ptr'], RLens=[0, 1], Ops=SWAP2_OPS, WalkLen=300, Alias=False)
+            elif len(cfg.slots) == 1:
                 params = dict(params_vec1(tier))
                 params['MaxLen'] = 3 if tier == 'quick' else 4
                 params['Its'] = ['ptr', 'input'] if tier == 'quick' else ['ptr', 'input', 'bidir', 'move']
